@@ -1299,7 +1299,15 @@ def unpack_collection(spec: ValueSpec) -> Optional[Expression]:
         )
     elif ensure_generic_mapping(spec, args, collections.defaultdict):
         spec.builder.ensure_module_imported(collections)
-        default_type = type_name(args[1] if args else None)
+        # the factory must be a callable object, not the rendered annotation:
+        # typing constructs (List[int], Optional[int], Any) cannot be called
+        # and the name of a local class cannot be evaluated
+        default_factory = get_type_origin(args[1]) if args else None
+        if isinstance(default_factory, type) and default_factory is not Any:
+            default_type = f"__default_factory_{random_hex()}"
+            spec.builder.ensure_object_imported(default_factory, default_type)
+        else:
+            default_type = "None"
         return (
             f"collections.defaultdict({default_type}, "
             f"{{{inner_expr(0, 'key')}: "
